@@ -115,7 +115,7 @@ func TestC10(t *testing.T) {
 	rec.Rule("case = one concurrent run on a real broker: 2-6 stable subscribers (behind the real listener.Conn at flush rate 1/3/60/1000 with seeded yields in the socket's Write, or behind the real WebSocket transport), 2-8 publishers each sending QoS-1 messages '<pub>-<chan>-<seq>' to 1-3 channels with up to 8 in flight, " +
 		"and churn clients subscribing/unsubscribing/pinging; end barrier = every publisher has read its last PUBACK and Flush() has returned on every subscriber; the captured stream of every subscriber must split into complete well-formed packets with nothing left and carry, per (publisher, channel), exactly 1..n in order; " +
 		"non-trivial = runs with >=2 publishers sharing a subscriber that is behind a queueing path (rate 1 or 3) or the WebSocket transport; distinct = hash of (configuration, interleaving fingerprint of the first subscriber's arrivals)")
-	n := vk.N(12, 400)
+	n := vk.N(12, 96)
 	reps := vk.N(2, 5)
 	for ci := 0; ci < n; ci++ {
 		if !vk.Mine(ci) {
@@ -145,7 +145,7 @@ func runC10(rec *vk.Rec, ci, rep int) {
 	chans := []string{"a/", "a/b/", "c/"}
 	nsub := r.Range(2, 6)
 	npub := r.Range(2, 8)
-	perPub := vk.N(250, 2500)
+	perPub := vk.N(250, 1200)
 	if readRate > 0 {
 		perPub = readRate * 2
 		if perPub > 150 {
@@ -162,7 +162,7 @@ func runC10(rec *vk.Rec, ci, rep int) {
 	if large {
 		nsub = []int{128, 192, 256, 128, 64, 129, 100, 192}[r.Intn(8)]
 		npub = r.Range(2, 3)
-		perPub = vk.N(150, 600)
+		perPub = vk.N(150, 300)
 		rec.Inc("runs_with_large_audience")
 	}
 	var subs []*c10Sub
